@@ -8,6 +8,7 @@ import (
 	"errors"
 	"math"
 	"strconv"
+	"strings"
 )
 
 // AmountUnit describes a method of converting an Amount to something
@@ -110,6 +111,16 @@ func (a Amount) ToBCH() float64 {
 // the units with SI notation, or "Satoshi" for the base unit.
 func (a Amount) Format(u AmountUnit) string {
 	units := " " + u.String()
+	if e := -int(u + 8); e > 0 {
+		// Units smaller than a satoshi: the value is the whole number
+		// a * 10^e, which can exceed the range in which float64 holds
+		// integers exactly (2^53), so write the digits directly.
+		digits := strconv.FormatInt(int64(a), 10)
+		if a != 0 {
+			digits += strings.Repeat("0", e)
+		}
+		return digits + "." + strings.Repeat("0", e) + units
+	}
 	return strconv.FormatFloat(a.ToUnit(u), 'f', -int(u+8), 64) + units
 }
 
